@@ -219,6 +219,7 @@ def worker_e(job):
         w = HL.World(it, prog, hist)
         w.push_all()
         ts = hist.ts
+        amounts = {'%d:%d' % k: t for k, t in w.val.items()}
         for b in range(1, ts.n + 1):
             # cached at insertion
             cb = None
@@ -226,7 +227,7 @@ def worker_e(job):
             node = find_block(prog, w.ub, b)
             cached = H.get_field(prog, node, 'CachedBlock', 'fee_rates').v
             if cached.variant != 1:
-                cands.add(kernel='e', role='fee-rates-not-cached-at-insertion', model=None, history=hist.descriptor(), block=b)
+                cands.add(kernel='e', amounts=amounts, role='fee-rates-not-cached-at-insertion', model=None, history=hist.descriptor(), block=b)
                 return
             crates = [c.v.t for c in cached.fields[0].v.cells]
             recomputed = []
@@ -235,7 +236,7 @@ def worker_e(job):
                 if r.variant == 1:
                     recomputed.append(r.fields[0].v.t)
             if len(crates) != len(recomputed):
-                cands.add(kernel='e', role='cached-and-recomputed-fee-lists-differ-in-length', model=it.model_ if it.feasible() else None, history=hist.descriptor(), block=b,
+                cands.add(kernel='e', amounts=amounts, role='cached-and-recomputed-fee-lists-differ-in-length', model=it.model_ if it.feasible() else None, history=hist.descriptor(), block=b,
                           cached=len(crates), recomputed=len(recomputed))
                 return
             # independent oracle: floor(1000 * (sum of inputs - sum of outputs) / vsize) per non-coinbase transaction whose fee is >= 0
@@ -249,7 +250,7 @@ def worker_e(job):
             for a, c in zip(crates, recomputed):
                 m = check_unsat(it, rep, zterm(a) != zterm(c))
                 if m is not None:
-                    cands.add(kernel='e', role='cached-rate-differs-from-recomputed', model=m, history=hist.descriptor(), block=b)
+                    cands.add(kernel='e', amounts=amounts, role='cached-rate-differs-from-recomputed', model=m, history=hist.descriptor(), block=b)
                     return
             # every listed rate corresponds, in order, to the transactions with non-negative fee
             it.solver.push()
@@ -257,12 +258,12 @@ def worker_e(job):
             for fee in exp:
                 if it.branch(fee >= 0):
                     if j >= len(crates):
-                        cands.add(kernel='e', role='fee-paying-transaction-missing-from-rates', model=it.model_ if it.feasible() else None, history=hist.descriptor(), block=b)
+                        cands.add(kernel='e', amounts=amounts, role='fee-paying-transaction-missing-from-rates', model=it.model_ if it.feasible() else None, history=hist.descriptor(), block=b)
                         it.solver.pop()
                         return
                     m = check_unsat(it, rep, zterm(crates[j]) != (1000 * fee) / 100)
                     if m is not None:
-                        cands.add(kernel='e', role='rate-is-not-floor-1000-fee-over-vsize', model=m, history=hist.descriptor(), block=b)
+                        cands.add(kernel='e', amounts=amounts, role='rate-is-not-floor-1000-fee-over-vsize', model=m, history=hist.descriptor(), block=b)
                         it.solver.pop()
                         return
                     j += 1
@@ -306,6 +307,32 @@ def confirm(cand, known):
             doc['problems'] = ['native percentiles of %s: %s..., nearest rank %s...' % (vals, got[:6] if isinstance(got, list) else got, exp[:6])]
             return 'violation', doc
         return 'not-reproduced', doc
+    if cand['kernel'] == 'e' and cand.get('history'):
+        # cached-at-insertion vs recomputed natively: the same history with witness-carrying transactions, once straight and once
+        # with an upgrade (which drops the per-block fee cache) after the block in question; an empty block is appended so that
+        # the tip changes afterwards; the fee percentiles of every later step must be identical
+        from checks import histlib as HL
+        parents, content = cand['history']
+        content = {str(k): v for k, v in content.items()}
+        n = len(parents) + 1
+        tip = max(range(1, n + 1), key=lambda b: len(btc.TreeScenario(parents).path(b)))
+        parents2 = list(parents) + [tip]
+        b = cand.get('block') if isinstance(cand.get('block'), int) else n
+        vals = {k: v for k, v in (cand.get('amounts') or {}).items() if isinstance(v, int)}
+        base = dict(op='history', parents=parents2, content=content, threshold=100, stable=[list(x) for x in HL.STABLE], witness_bytes=60, values=vals,
+                    pool={str(k): [list(map(list, v[0])), v[1]] for k, v in HL.POOL.items()})
+        r1 = C.run_native([dict(ops=[base])], tag='c15e')[0][-1]
+        r2 = C.run_native([dict(ops=[dict(base, upgrade_after=max(b, 1))])], tag='c15e')[0][-1]
+        f1 = {s_['after']: s_.get('fees') for s_ in r1.get('steps', [])}
+        f2 = {s_['after']: s_.get('fees') for s_ in r2.get('steps', [])}
+        doc['native'] = dict(trap=[r1.get('trap'), r2.get('trap')], steps=sorted(f1))
+        diff = [k for k in sorted(f1) if k in f2 and k > b and f1[k] != f2[k]]
+        if r1.get('trap') or r2.get('trap') or diff:
+            k = diff[0] if diff else None
+            doc['problems'] = ['fee percentiles after block %s: %s... with the insertion-time cache, %s... recomputed after an upgrade following block %s' % (
+                k, (f1.get(k) or [])[:3], (f2.get(k) or [])[:3], b) if diff else 'trap: %s' % str([r1.get('trap'), r2.get('trap')])[:200]]
+            return 'violation', doc
+        return 'not-reproduced', doc
     return 'violation', doc
 
 
@@ -342,7 +369,7 @@ def main():
                              outside='vsize of the dependency (symbol), more than 10,000 real transactions (the cut is symbolic instead), eager/lazy switch (heartbeat flag)')
     rep.cov['functions_encoded'] = ['percentiles (+closures)', 'get_fees_per_byte', 'get_tx_fee_per_byte', 'get_current_fee_percentiles_with_number_of_transactions',
                                     'types::fee_rate_per_vbyte', 'insert_outpoints (fee part)', 'CachedBlock::{fee_rates,set_metrics}', 'unstable_blocks::get_main_chain']
-    rep.cov['stubs'] = btc.stub_docs(STUBS) + ['slice::sort_unstable -> order-statistics model above 3 symbolic values', 'ledger model for kernel e (vsize = 100)', 'Vec::len / Index -> symbolic length / recorder (kernel i)']
+    rep.cov['stubs'] = btc.stub_docs(STUBS) + ['slice::sort_unstable -> order-statistics model above 3 symbolic values', 'ledger model for kernel e (vsize = 100; total_size / base_size separate symbols with base <= vsize <= total)', 'Vec::len / Index -> symbolic length / recorder (kernel i)']
     rep.assumptions = ['nearest-rank definition: smallest value with at least ceil(p/100*n) values <= it; p = 0 gives the minimum']
     cands = Cands()
     jobs = [('p', n) for n in range(0, NP + 1)] + [('f', p) for p in shapes_upto(NT, forks_only_above=3)] + [('e', j) for j in hjobs]
